@@ -55,6 +55,8 @@ CLAIMED.update({
                 ref='DESIGN.md §3 C06'),
     'C07': dict(text='one write through the real Mapper from every machine state, with a second fully symbolic address over the whole 64 KiB read before and after: the read may change only where the documented effect relation (same address, echo partner, cartridge windows for control writes, LCDC->STAT/LY, DMA->OAM window, NR52->APU range, envelope/DAC/trigger/sweep registers->NR52 and wave RAM for channel 3) allows; per cartridge kind',
                 ref='DESIGN.md §3 C07'),
+    'C23': dict(text='with a recording io.Writer attached to the real system: one write through the real Mapper to every address class / register from every machine state delivers exactly the written byte, once, iff the address is FF01, and keeps the earlier transcript in order; reads at any address and a machine cycle of every component deliver nothing; with no writer SB/SC writes change nothing readable and reach no failure site; SB and SC read FF',
+                ref='DESIGN.md §3 C23'),
 })
 
 NA_REASON = {
